@@ -717,4 +717,132 @@ def transposeM (ncols : Nat) (m : Mat) : Mat :=
 def writeCscAsIs (nrows ncols : Nat) (m : Mat) : CsrFile :=
   { writeSparse ncols nrows (transposeM ncols m) with shape := (nrows, ncols) }
 
+/-! ### Representations of a database key
+
+`HashableNdarray` compares the *values* of two arrays (`hash` taken after `array + 0.0`, then
+`array_equal`): `[1, 2]` (int64), `[1, 2]` (int32) and `[1., 2.]`, or `[0., 3.]` and `[-0., 3.]`, are
+ONE key. The sections above work on keys (a `Pt` names the entry). This section models what the
+*bytes* of the points become: the database keeps the array stored first (a `dict` keeps its first
+key), the pending buffer keeps an array per hash, and the append branch of `to_file` writes the
+PENDING array as the dataset `x/<index>` of a new entry. -/
+
+/-- One array handed to `Database.store`, bit for bit: dtype code (0 = float64, 1 = int64,
+    2 = int32), values, positions holding a negative zero. -/
+structure Rep where
+  dt : Nat
+  xs : List Rat
+  negz : List Nat
+  deriving Repr, DecidableEq
+
+/-- State of the representation layer: `database.keys()` (the arrays held, in insertion order),
+    the pending buffer (hash ↦ array), the group `x` of the file (index ↦ dataset). -/
+structure RState (κ : Type) where
+  keys : List Rep
+  pend : List (κ × Rep)
+  fx : List (Nat × Rep)
+  deriving DecidableEq
+
+def RState.init {κ : Type} : RState κ := { keys := [], pend := [], fx := [] }
+
+/-- `self.__data[hashed_input_value] = outputs` / `stored_outputs.update(outputs)`: an array equal
+    to a key already present (`array_equal`: same values) leaves the keys alone. -/
+def rkeysStore : List Rep → Rep → List Rep
+  | [], r => [r]
+  | q :: t, r => if q.xs = r.xs then q :: t else q :: rkeysStore t r
+
+/-- `HDFDatabase.add_pending_array`: `existing = pending.get(hash(data))`; the slot is written
+    when it is empty or when the arrays are not `array_equal`. -/
+def raddPending {κ : Type} [DecidableEq κ] (H : Rep → κ) (pend : List (κ × Rep)) (r : Rep) :
+    List (κ × Rep) :=
+  match pend with
+  | [] => [(H r, r)]
+  | (h, q) :: t =>
+    if h = H r then (if q.xs = r.xs then (h, q) :: t else (h, r) :: t)
+    else (h, q) :: raddPending H t r
+
+/-- The simplification `self.__pending_arrays[hash(data)] = data` (no `array_equal` guard). -/
+def raddPendingLast {κ : Type} [DecidableEq κ] (H : Rep → κ) (pend : List (κ × Rep)) (r : Rep) :
+    List (κ × Rep) :=
+  match pend with
+  | [] => [(H r, r)]
+  | (h, q) :: t => if h = H r then (h, r) :: t else (h, q) :: raddPendingLast H t r
+
+/-- `input_values_to_idx[input_values]`: index of the key EQUAL to the array. -/
+def rindex (r : Rep) : List Rep → Option Nat
+  | [] => none
+  | q :: t => if q.xs = r.xs then some 0 else (rindex r t).map (· + 1)
+
+/-- The append loop of `to_file` on the group `x`: `if str(index) in x_group:` nothing is written
+    to `x`, else `x/<index>` is created from the PENDING array. -/
+def rappend (keys : List Rep) : List (Nat × Rep) → List Rep → Option (List (Nat × Rep))
+  | X, [] => some X
+  | X, q :: qs =>
+    match rindex q keys with
+    | none => none
+    | some i =>
+      match alook i X with
+      | some _ => rappend keys X qs
+      | none => rappend keys (X ++ [(i, q)]) qs
+
+/-- The full export: `x/0, x/1, …` from `database.items()`. -/
+def renum (i : Nat) : List Rep → List (Nat × Rep)
+  | [] => []
+  | r :: t => (i, r) :: renum (i + 1) t
+
+def rstoreWith {κ : Type} (add : List (κ × Rep) → Rep → List (κ × Rep)) (s : RState κ) (r : Rep) :
+    RState κ :=
+  { keys := rkeysStore s.keys r, pend := add s.pend r, fx := s.fx }
+
+/-- `Database.store` (pending first, then the data). -/
+def rstore {κ : Type} [DecidableEq κ] (H : Rep → κ) (s : RState κ) (r : Rep) : RState κ :=
+  rstoreWith (raddPending H) s r
+
+def rexport {κ : Type} (s : RState κ) (append : Bool) : Option (RState κ) :=
+  if append && !s.fx.isEmpty then
+    (rappend s.keys s.fx (s.pend.map (·.2))).map (fun X => { keys := s.keys, pend := [], fx := X })
+  else some { keys := s.keys, pend := [], fx := renum 0 s.keys }
+
+/-- The datasets `x/0 … x/(n-1)` in index order (`update_from_file`; a missing index raises). -/
+def rreadFile (X : List (Nat × Rep)) : Option (List Rep) :=
+  optAll ((List.range X.length).map (fun i => alook i X))
+
+/-- `database.update_from_hdf(file)`: every dataset goes through `store`. -/
+def rupdate {κ : Type} [DecidableEq κ] (H : Rep → κ) (s : RState κ) : Option (RState κ) :=
+  (rreadFile s.fx).map (fun rs => rs.foldl (rstore H) s)
+
+/-- `Database.from_hdf(file)`: a new database updated from the file. -/
+def rreload {κ : Type} [DecidableEq κ] (H : Rep → κ) (s : RState κ) : Option (RState κ) :=
+  rupdate H { keys := [], pend := [], fx := s.fx }
+
+inductive ROp where
+  | store (r : Rep)
+  | exportFile (append : Bool)
+  | reload
+  deriving Repr
+
+def rstep {κ : Type} [DecidableEq κ] (H : Rep → κ) (s : RState κ) : ROp → Option (RState κ)
+  | .store r => some (rstore H s r)
+  | .exportFile a => rexport s a
+  | .reload => rreload H s
+
+def rrun {κ : Type} [DecidableEq κ] (H : Rep → κ) : RState κ → List ROp → Option (RState κ)
+  | s, [] => some s
+  | s, op :: ops =>
+    match rstep H s op with
+    | some s' => rrun H s' ops
+    | none => none
+
+/-- The same machine with the unguarded pending buffer (for the witness theorem). -/
+def rstepLast {κ : Type} [DecidableEq κ] (H : Rep → κ) (s : RState κ) : ROp → Option (RState κ)
+  | .store r => some (rstoreWith (raddPendingLast H) s r)
+  | .exportFile a => rexport s a
+  | .reload => rreload H s
+
+def rrunLast {κ : Type} [DecidableEq κ] (H : Rep → κ) : RState κ → List ROp → Option (RState κ)
+  | s, [] => some s
+  | s, op :: ops =>
+    match rstepLast H s op with
+    | some s' => rrunLast H s' ops
+    | none => none
+
 end GV.C11
